@@ -4,6 +4,7 @@ import (
 	"fmt"
 	"go/constant"
 	"go/token"
+	"go/types"
 	"os"
 	"regexp"
 	"strings"
@@ -172,6 +173,49 @@ func c14(e *Env) {
 		either(kv("Params", "(*Task).Param"), kvSplit("Params", "(*Task).Param")), "no hashed piece combines a key of Task.Params with the value of that parameter")
 	chk("tag-key+value", "name and value of every tag are part of the hashed identity",
 		either(kv("Tags", "(*Task).Tag"), kvSplit("Tags", "(*Task).Tag")), "no hashed piece combines a key of Task.Tags with the value of that tag (e.g. the value is read from another map): tasks differing only in a tag value share a temp dir")
+	// completeness: the loops that contribute pieces cannot be left early (a `break` where a `continue` was meant drops
+	// the identity of everything that sorts after the skipped element)
+	obAll := ob1("loops-complete", "every loop that contributes pieces of the identity runs to the end of its collection (no break / early return that lets TempDir continue)")
+	{
+		nL := 0
+		okAll := true
+		seenLoop := map[*core.Loop]bool{}
+		for _, n := range g.Nodes {
+			if n.Kind == core.KAfter || n.Instr == nil {
+				continue
+			}
+			contributes := false
+			if c, ok := n.Instr.(*ssa.Call); ok {
+				if n.IsBuiltin("append") && len(c.Call.Args) == 2 {
+					if sl, ok := c.Call.Args[0].Type().Underlying().(*types.Slice); ok {
+						if b, ok := sl.Elem().Underlying().(*types.Basic); ok && b.Kind() == types.String {
+							contributes = true
+						}
+					}
+				}
+				if n.IsCallTo("(*strings.Builder).WriteString", "io.WriteString", "fmt.Fprint", "fmt.Fprintf") || (c.Call.IsInvoke() && c.Call.Method.Name() == "Write") {
+					contributes = true
+				}
+			}
+			if !contributes {
+				continue
+			}
+			for _, la := range iterLoops(g, n) {
+				if seenLoop[la.L] {
+					continue
+				}
+				seenLoop[la.L] = true
+				nL++
+				if !e.loopHarmlessExits(g, la) {
+					okAll = false
+					obAll.Fail(g.Where(n), "a loop that adds pieces of the task's identity to the hash can be left before its collection is exhausted: what comes after the element at which it stops is not part of the identity, so different tasks share a temp dir")
+				}
+			}
+		}
+		if okAll {
+			obAll.OK(where, fmt.Sprintf("%d contributing loops, none can be left early", nL))
+		}
+	}
 	// ---- R2 order determinism
 	ob2 := r.Ob("R2", "TempDir:order", "every map feeding the pre-image is traversed in sorted key order (no direct map range reaches the hash or the prefix)")
 	badOrder := ""
